@@ -209,6 +209,7 @@ class Interp:
         self.side = []           # side constraints introduced by core models (lemma mode)
         self.div_witness = []
         self.fresh_count = 0
+        self.unconstrained = []  # results left unconstrained by a core model (value queries must not rely on them)
         for f in fns.values():
             if "{closure#" in f.name and f.params:
                 self.closure_fn[f.params[0][1]] = f.name
@@ -362,6 +363,8 @@ class Interp:
             return Bool(False)
         if t == "()":
             return UNIT
+        if t in CONSTS:
+            return CONSTS[t]()
         c = self.resolve_const(t)
         if c is not None:
             leaves = self.run(c, [], st)
@@ -706,6 +709,37 @@ class Interp:
 
 # ------------------------------------------------------------------ trusted base: core functions -> SMT-LIB definitions
 
+CONSTS = {
+    "core::num::<impl i32>::BITS": lambda: Int(z3.BitVecVal(32, 32), False),
+    "core::num::<impl u32>::BITS": lambda: Int(z3.BitVecVal(32, 32), False),
+    "core::num::<impl i32>::MAX": lambda: Int(z3.BitVecVal((1 << 31) - 1, 32), True),
+    "core::num::<impl i32>::MIN": lambda: Int(z3.BitVecVal(-(1 << 31), 32), True),
+    "core::num::<impl u32>::MAX": lambda: Int(z3.BitVecVal((1 << 32) - 1, 32), False),
+    "core::f64::<impl f64>::MAX": lambda: Flt(z3.FPVal(1.7976931348623157e308, F64)),
+    "core::f64::<impl f64>::MIN": lambda: Flt(z3.FPVal(-1.7976931348623157e308, F64)),
+    "core::f64::<impl f64>::INFINITY": lambda: Flt(z3.fpPlusInfinity(F64)),
+    "core::f64::<impl f64>::NEG_INFINITY": lambda: Flt(z3.fpMinusInfinity(F64)),
+    "core::f64::<impl f64>::NAN": lambda: Flt(z3.fpNaN(F64)),
+    "core::f64::<impl f64>::EPSILON": lambda: Flt(z3.FPVal(2.220446049250313e-16, F64)),
+}
+for _k in list(CONSTS):
+    CONSTS[_k.replace("core::num::<impl ", "").replace("core::f64::<impl ", "").replace(">", "")] = CONSTS[_k]   # `i32::BITS` spelling
+    CONSTS[_k.replace("core::", "std::")] = CONSTS[_k]
+
+
+def _unconstrained_f64(it, st, args):
+    """libm-backed float functions: total, never panic; the VALUE is left unconstrained (only used by no-panic queries)"""
+    it.fresh_count += 1
+    it.unconstrained.append("f64")
+    return [(None, "ret", Flt(z3.FP("libm%d" % it.fresh_count, F64)))]
+
+
+def _unconstrained_ovf_pow(it, st, args):
+    it.fresh_count += 1
+    it.unconstrained.append("overflowing_pow")
+    return [(None, "ret", Tup([Int(z3.BitVec("pow%d" % it.fresh_count, 32), True), Bool(z3.Bool("powo%d" % it.fresh_count))]))]
+
+
 def div_lemma(A, B, q, r):
     """a = q*b + r, |r| < |b|, r = 0 or sign(r) = sign(a); all 64-bit, q within 33 bits so that q*b cannot wrap"""
     absr = z3.If(r < 0, -r, r)
@@ -933,6 +967,11 @@ CORE = {
     "core::f64::<impl f64>::abs": _f64_abs,
     "<f64 as Neg>::neg": _f64_neg,
     "core::f64::<impl f64>::max": _f64_max,
+    "<f64 as Rem>::rem": _unconstrained_f64,
+    "f64::<impl f64>::powf": _unconstrained_f64,
+    "std::f64::<impl f64>::powf": _unconstrained_f64,
+    "f64::<impl f64>::powi": _unconstrained_f64,
+    "core::num::<impl i32>::overflowing_pow": _unconstrained_ovf_pow,
     "<i32 as Ord>::max": _i32_max,
 }
 
@@ -958,4 +997,5 @@ CORE_DOC = {
     "<f64 as Add>::add": "fp.add RNE (likewise sub, mul, div)",
     "core::f64::<impl f64>::is_infinite": "fp.isInfinite (is_finite: not inf and not NaN)",
     "FloatToInt cast": "NaN -> 0, saturating, fp.to_sbv RTZ",
+    "<f64 as Rem>::rem, f64::powf, i32::overflowing_pow": "total functions that never panic; their VALUE is an unconstrained fresh variable - used by the no-panic queries only (value queries for %, ** stay with Kani)",
 }
